@@ -241,7 +241,7 @@ namespace Chess
 
 /-! ### 3. the state byte -/
 
-theorem forall_uint8 {P : UInt8 → Prop} (h : ∀ n : BitVec 8, P (UInt8.ofBitVec n)) (s : UInt8) : P s :=
+theorem forall_uint8_iv {P : UInt8 → Prop} (h : ∀ n : BitVec 8, P (UInt8.ofBitVec n)) (s : UInt8) : P s :=
   h s.toBitVec
 
 namespace GState
@@ -256,7 +256,7 @@ theorem setEnPassant_all (s : GState) (v : Int) (h0 : 0 ≤ v) (h8 : v ≤ 8) :
       (s.setEnPassant (k.val : Int)).enPassant = (k.val : Int) ∧ (s.setEnPassant k.val).wk = s.wk
         ∧ (s.setEnPassant k.val).wq = s.wq ∧ (s.setEnPassant k.val).bk = s.bk
         ∧ (s.setEnPassant k.val).bq = s.bq := by
-    intro k; apply forall_uint8; revert k; decide +kernel
+    intro k; apply forall_uint8_iv; revert k; decide +kernel
   obtain ⟨n, rfl⟩ := Int.eq_ofNat_of_zero_le h0
   exact key ⟨n, by omega⟩ s
 
@@ -269,7 +269,7 @@ theorem clear_all (s : GState) :
       ∧ s.clearBk.bk = false ∧ s.clearBk.bq = s.bq)
     ∧ (s.clearBq.enPassant = s.enPassant ∧ s.clearBq.wk = s.wk ∧ s.clearBq.wq = s.wq
       ∧ s.clearBq.bk = s.bk ∧ s.clearBq.bq = false) := by
-  revert s; apply forall_uint8; decide +kernel
+  revert s; apply forall_uint8_iv; decide +kernel
 
 end GState
 end Chess
@@ -497,7 +497,7 @@ end Chess
 
 namespace Chess
 
-theorem Pos.ofIdx_valid {i : Nat} (hi : i < 64) : (Pos.ofIdx i).Valid := by
+theorem Pos.ofIdx_valid_iv {i : Nat} (hi : i < 64) : (Pos.ofIdx i).Valid := by
   unfold Pos.Valid Pos.ofIdx; simp only; omega
 theorem Pos.idx_ofIdx {i : Nat} (hi : i < 64) : (Pos.ofIdx i).idx = i := by
   unfold Pos.idx Pos.ofIdx; simp only; omega
@@ -659,7 +659,7 @@ theorem phaseFlip_cacheInv (hc : g.CacheInv) (hk : g.KingInv) : g.phaseFlip.Cach
     rw [hc.scores i hi]
     apply placeScore_phase
     intro pl e
-    have hu := hk.unique (Pos.ofIdx i) pl (Pos.ofIdx_valid hi) (by rw [get_ofIdx g hi, e])
+    have hu := hk.unique (Pos.ofIdx i) pl (Pos.ofIdx_valid_iv hi) (by rw [get_ofIdx g hi, e])
     cases pl
     · apply hw; show g.wking.idx = i; rw [show g.wking = Pos.ofIdx i from hu, Pos.idx_ofIdx hi]
     · apply hb; show g.bking.idx = i; rw [show g.bking = Pos.ofIdx i from hu, Pos.idx_ofIdx hi]
@@ -1293,7 +1293,7 @@ theorem extraOk_normal_other {g : Game} {pc : Piece} {s q : Pos} {cap : Option P
     (h1 : pc.pieceType ≠ .pawn) (h2 : pc.pieceType ≠ .king) : g.ExtraOk (.normal pc s q cap) :=
   ⟨fun h => absurd h h1, fun h => absurd h h2⟩
 
-theorem mem_ite_single {α : Type} {c : Prop} [Decidable c] {a m : α}
+theorem mem_ite_single_iv {α : Type} {c : Prop} [Decidable c] {a m : α}
     (h : m ∈ (if c then [a] else [])) : m = a := by
   split at h <;> simp_all
 
@@ -1301,7 +1301,7 @@ theorem mem_ite_single' {α : Type} {c : Prop} [Decidable c] {a m : α}
     (h : m ∈ (if c then [] else [a])) : ¬c ∧ m = a := by
   split at h <;> simp_all
 
-theorem mem_ite_nil {α : Type} {c : Prop} [Decidable c] {l : List α} {m : α}
+theorem mem_ite_nil_iv {α : Type} {c : Prop} [Decidable c] {l : List α} {m : α}
     (h : m ∈ (if c then [] else l)) : ¬c ∧ m ∈ l := by
   split at h <;> simp_all
 
@@ -1353,13 +1353,13 @@ theorem kingMoves_extraOk (g : Game) (pc : Piece) (p : Pos) (hk : pc.pieceType =
     split at hm
     · simp at hm
     · rename_i q _
-      obtain ⟨-, hm⟩ := mem_ite_nil hm
+      obtain ⟨-, hm⟩ := mem_ite_nil_iv hm
       obtain ⟨hfar, hm⟩ := mem_ite_single' hm
       subst hm
       refine ⟨fun h => (by rw [hk] at h; cases h), fun _ e => hfar ?_⟩
       rw [e]; simp
-  · cases hp : g.player <;> simp only [hp] at hm <;> rw [mem_ite_single hm] <;> exact ⟨trivial, trivial⟩
-  · cases hp : g.player <;> simp only [hp] at hm <;> rw [mem_ite_single hm] <;> exact ⟨trivial, trivial⟩
+  · cases hp : g.player <;> simp only [hp] at hm <;> rw [mem_ite_single_iv hm] <;> exact ⟨trivial, trivial⟩
+  · cases hp : g.player <;> simp only [hp] at hm <;> rw [mem_ite_single_iv hm] <;> exact ⟨trivial, trivial⟩
 
 
 theorem mem_ite_single_cond {α : Type} {c : Prop} [Decidable c] {a m : α}
@@ -1428,7 +1428,7 @@ theorem pawnMoves_extraOk (g : Game) (pc : Piece) (p : Pos) (hown : pc.owner = g
             rcases hd with rfl | rfl <;> decide
           · simp at hm
         · simp at hm
-    · rw [mem_ite_single hm]; exact ⟨trivial, trivial⟩
+    · rw [mem_ite_single_iv hm]; exact ⟨trivial, trivial⟩
   | black =>
     simp only [hp, Gen.pawnFirstRowB, Gen.pawnLastRowB, Gen.pawnEpRowB, Gen.pawnDeltaB, Gen.pawnFirstDeltaB,
       Gen.pawnSideDeltasB, List.mem_append] at hm
@@ -1462,7 +1462,7 @@ theorem pawnMoves_extraOk (g : Game) (pc : Piece) (p : Pos) (hown : pc.owner = g
             rcases hd with rfl | rfl <;> decide
           · simp at hm
         · simp at hm
-    · rw [mem_ite_single hm]; exact ⟨trivial, trivial⟩
+    · rw [mem_ite_single_iv hm]; exact ⟨trivial, trivial⟩
 
 /-- **every move the generator produces satisfies the two extra hypotheses of `push_wf`** -/
 theorem pieceMoves_extraOk (g : Game) (pc : Piece) (p : Pos) (hown : pc.owner = g.player) :
@@ -1500,7 +1500,7 @@ theorem pseudoMoves_extraOk (g : Game) : ∀ m ∈ g.pseudoMoves, PawnDoubleOk g
       · simp at hm
     · simp at hm
 
-theorem filterMoves_subset (pl : Player) (kp : Pos) (kt : Bool) (ms : List Move) :
+theorem filterMoves_subset_any (pl : Player) (kp : Pos) (kt : Bool) (ms : List Move) :
     ∀ (g : Game), ∀ m ∈ (filterMoves pl kp kt g ms).1, m ∈ ms := by
   induction ms with
   | nil => intro g m hm; simp [filterMoves] at hm
@@ -1520,18 +1520,18 @@ theorem filterMoves_subset (pl : Player) (kp : Pos) (kt : Bool) (ms : List Move)
         · exact Or.inr (ih _ m hm)
       · exact List.mem_cons_of_mem _ (ih _ m hm)
 
-theorem getMoves_subset (g : Game) (v : Bool) : ∀ m ∈ (g.getMoves v).1, m ∈ g.pseudoMoves := by
+theorem getMoves_subset_any (g : Game) (v : Bool) : ∀ m ∈ (g.getMoves v).1, m ∈ g.pseudoMoves := by
   intro m hm
   unfold getMoves at hm
   simp only at hm
   split at hm
-  · exact filterMoves_subset _ _ _ _ _ m hm
+  · exact filterMoves_subset_any _ _ _ _ _ m hm
   · exact hm
 
 /-- the moves `get_moves` answers with (checked or not) satisfy the two extra hypotheses -/
 theorem getMoves_extraOk (g : Game) (v : Bool) :
     ∀ m ∈ (g.getMoves v).1, PawnDoubleOk g m ∧ g.KingStepOk m :=
-  fun m hm => pseudoMoves_extraOk g m (getMoves_subset g v m hm)
+  fun m hm => pseudoMoves_extraOk g m (getMoves_subset_any g v m hm)
 
 end Game
 end Chess
